@@ -103,6 +103,10 @@ pub fn opaque_closure_value() -> AnyClosure { unimplemented!() }
 pub assume_specification<T, A: core::alloc::Allocator>[VecDeque::<T, A>::is_empty](v: &VecDeque<T, A>) -> (r: bool)
     ensures r == (v@.len() == 0);
 
+/// `drop(x)` / `mem::drop(x)` of a value that is not a lock guard: consumes the value (its destructor is outside the contract, as at scope end)
+#[verifier::external_body]
+pub fn drop_value__<T>(t: T) { }
+
 /// R28: `X.drain(..)` consumed by `for_each`: every element is handed over, in order, and X is left empty
 #[verifier::external_body]
 pub fn take_all__<T>(v: &mut Vec<T>) -> (r: Vec<T>)
